@@ -57,7 +57,7 @@ def strategy(tier):
             data = st.lists(tree_nb, max_size=4)
         else:
             data = other_payload
-        return st.fixed_dictionaries({
+        return S.fdict({
             'type': st.just(ptype), 'nsp': S.namespace_st(),
             'id': S.ack_id_st(), 'data': data,
             'choice': st.integers(0, 7), 'ws': st.sampled_from(['', ' ', '\n\t'])})
